@@ -1,0 +1,38 @@
+//go:build verif
+
+// Contracts checked by /verif/govc (comment-only; compiled only with -tags verif).
+// Soundness mode (see frontend/contracts_verif.go): every clause holds for every assignment of the wires
+// that satisfies the constraints the function emits, whatever the hints returned.
+package selector
+
+// stepMask: the output is the step function, and a step position outside [0, outputLen] is unsatisfiable
+// (whenever the two values differ). outputLen < p: positions are compared as field elements.
+//@ contract stepMask
+//@   props C14
+//@   assigns api
+//@   requires api != nil && outputLen < fieldP()
+//@   ensures @len len(result) == outputLen && outputLen >= 2 && fresh(result) && wires(result)
+//@   ensures @step forall k int :: 0 <= k && k < outputLen ==> den(result[k]) == (k < ival(den(stepPosition)) ? den(startValue) : den(endValue))
+//@   ensures @domain den(startValue) != den(endValue) ==> ival(den(stepPosition)) <= outputLen
+//@   loop 1 invariant @left forall k int :: 0 <= k && k < i && k < ival(den(stepPosition)) ==> den(out[k]) == den(startValue)
+//@   loop 1 invariant @right forall k int :: ival(den(stepPosition)) <= k && k < i ==> den(out[k]) == den(out[ival(den(stepPosition))])
+
+// Partition keeps one side of the pivot and zeroes the other; pivot > len(input) is unsatisfiable.
+//@ contract Partition
+//@   props C14
+//@   assigns api
+//@   requires api != nil && len(input) < fieldP()
+//@   ensures @len len(out) == len(input) && fresh(out)
+//@   ensures @domain ival(den(pivotPosition)) <= len(input)
+//@   ensures @left !rightSide ==> forall k int :: 0 <= k && k < len(input) ==> den(out[k]) == (k < ival(den(pivotPosition)) ? den(input[k]) : f0)
+//@   ensures @right rightSide ==> forall k int :: 0 <= k && k < len(input) ==> den(out[k]) == (k < ival(den(pivotPosition)) ? f0 : den(input[k]))
+//@   loop 1 invariant @prefix forall k int :: 0 <= k && k < i ==> den(out[k]) == fmul(den(mask[k]), den(input[k]))
+
+// Slice keeps [start, end) and zeroes the rest; end > len(input) is unsatisfiable.
+//@ contract Slice
+//@   props C14
+//@   assigns api
+//@   requires api != nil && len(input) < fieldP()
+//@   ensures @len len(result) == len(input) && fresh(result)
+//@   ensures @domain ival(den(end)) <= len(input) && ival(den(start)) <= len(input)
+//@   ensures @slice forall k int :: 0 <= k && k < len(input) ==> den(result[k]) == ((ival(den(start)) <= k && k < ival(den(end))) ? den(input[k]) : f0)
